@@ -82,6 +82,13 @@ pub struct C19Outcome {
     pub json_note: Option<String>,
     pub fields: usize,
     pub storage: crate::simfile::StorageStats,
+    /// out-of-contract probes (torn file, flipped byte): outcome counts only, never a violation
+    #[serde(default)]
+    pub probes: std::collections::BTreeMap<String, u64>,
+    /// a panic in process A / while observing the ORIGINAL value: the scenario itself
+    /// is broken (harness error), not a persistence defect
+    #[serde(default)]
+    pub scenario_panic: Option<String>,
 }
 
 pub struct C19Cfg<'a> {
